@@ -76,6 +76,7 @@ OpsFor(f) ==
     \cup (IF "rec" \in OpKinds THEN {[k |-> "rec"]} ELSE {})
     \cup (IF "spin" \in OpKinds THEN {[k |-> "spin"]} ELSE {})
     \cup (IF "deferev" \in OpKinds THEN {[k |-> "deferev"]} ELSE {})
+    \cup (IF "bp" \in OpKinds THEN {[k |-> "bp"]} ELSE {})   \* _ = "break": a debugger breakpoint, no effect
     \cup (IF "set" \in OpKinds THEN {[k |-> "set", v |-> 5]} ELSE {})
     \cup (IF "ret" \in OpKinds THEN {[k |-> "ret", v |-> 6]} ELSE {})
     \cup (IF "deferrec" \in OpKinds THEN {[k |-> "deferrec", v |-> 7]} ELSE {})
@@ -170,6 +171,8 @@ ExecOp ==
              IN CASE op.k = "L" ->
                        /\ EvCall(<<"L", f, T.pc, isd, dep>>, SetTop(T1), pans)
                        /\ UNCHANGED <<fid, panicFun, disagree>>
+                  [] op.k = "bp" ->
+                       /\ st' = SetTop(T1) /\ UNCHANGED <<pans, log, nev, fid, panicFun, disagree>>
                   [] op.k = "spin" ->
                        /\ st' = SetTop(T1) /\ UNCHANGED <<pans, log, nev, fid, panicFun, disagree>>
                   [] op.k = "set" ->
